@@ -2218,3 +2218,163 @@ class ChainCallUnit(IterUnit):
 
 
 UNITS += [ChainCallUnit]
+
+
+# ---- zip_longest: for 0 .. 2 input iterables (the list of iterators is a Python-level list: the arity is a stated bound) ----------------
+# specification (step obligation at every yield): the tuple yielded in round r has, at position i, element r of input i if input i has
+# one, the fill value otherwise; the generator ends exactly after max(len_i) rounds.
+
+from segvc import interp as _I  # noqa: E402
+
+
+def _unroll_enumerate_loop(spec, ip, s, env, f, ordinal):
+    it = ip.eval(s.iter, env, f.modpath)
+    if not isinstance(it, list):
+        raise Unsupported("for-loop over something that is not enumerate(<the list of iterators>)")
+    for x in it:
+        ip.assign(s.target, x, env, f)
+        try:
+            ip.exec_block(s.body, env, f)
+        except _I._Continue:
+            continue
+        except _I._Break:
+            break
+
+
+def zip_inv(ip, env):
+    u = ip.ctx.unit
+    h = H(ip.st)
+    r = out_n(h)
+    active = _loc(env, "active")
+    num_active = ip.term(_loc(env, "num_active"), INT)
+    ty = ip.truth(_loc(env, "tuple_yielded"))
+    ty = z3.BoolVal(ty) if isinstance(ty, bool) else ty
+    if not (isinstance(active, PyList) and len(active.items) == u.arity):
+        raise Unsupported("`active` is not the list of one flag per iterator")
+    terms = [r >= 0, ty == (r > 0)]
+    count = z3.IntVal(0)
+    for i, (s_, lo0, hi0) in enumerate(u.sources):
+        a_i = ip.truth(active.items[i])
+        a_i = z3.BoolVal(a_i) if isinstance(a_i, bool) else a_i
+        d = h.dq(SRC.cls, s_.t)
+        ln = hi0 - lo0
+        terms += [a_i == (r <= ln), d.lo - lo0 == z3.If(r <= ln, r, ln), d.hi == hi0, d.data == u.datas[i]]
+        count = count + z3.If(a_i, 1, 0)
+    terms += [num_active == count, num_active >= 1]
+    return [("after_r_rounds_every_input_has_given_min_r_len_elements_and_is_active_iff_it_may_have_more", z3.And(*terms))]
+
+
+def zip_after_havoc(ip, env):
+    u = ip.ctx.unit
+    lst = PyList()
+    lst.items = [Sym(ip.st.fresh("active", z3.BoolSort()), BOOL) for _ in range(u.arity)]
+    env.vars["active"] = lst
+
+
+class ZipLongestUnit(GenUnit):
+    funcname = "zip_longest"
+    MAX_ARITY = 2
+
+    def __init__(self):
+        super().__init__()
+        self.globals = dict(self.globals)
+        self.globals["len"] = Builtin("len", lambda ip, x: len(x.items) if isinstance(x, PyList) else lib.b_len(ip, x))
+        self.globals["enumerate"] = Builtin("enumerate", lambda ip, x: [(i, v) for i, v in enumerate(x.items)] if isinstance(x, PyList) else (_ for _ in ()).throw(Unsupported("enumerate")))
+        self.globals["tuple"] = Builtin("tuple", lambda ip, x: tuple(x.items) if isinstance(x, PyList) else lib.b_tuple(ip, x))
+
+    def make_args(self, ip):
+        st = ip.st
+        self.gen_entry(ip)
+        self.arity = ip.ctx.decide(self.MAX_ARITY + 1, "number-of-iterables")
+        self.sources, self.datas = [], []
+        h = H(st)
+        for i in range(self.arity):
+            r = Sym(z3.Int(f"iterable_{i}"), SRC)
+            d = h.dq(SRC.cls, r.t)
+            st.assume(z3.And(r.t > 0, st.allocated(r.t), d.lo <= d.hi, d.lo >= 0))
+            for prev in self.sources:
+                st.assume(prev[0].t != r.t)
+            self.sources.append((r, d.lo, d.hi))
+            self.datas.append(d.data)
+        self.src, self.lo0 = Sym(z3.IntVal(0), SRC), None
+        self.fill_given = ip.ctx.decide(2, "fillvalue-given") == 1
+        self.fill = Sym(z3.Int("fillvalue"), OBJ)
+        return [s for s, _, _ in self.sources], ({"fillvalue": self.fill} if self.fill_given else {})
+
+    def fill_term(self):
+        return self.fill.t if self.fill_given else z3.IntVal(0)
+
+    def list_comp(self, ip, e, env, mp):
+        g = e.generators[0] if len(e.generators) == 1 else None
+        if g is None or g.ifs or g.is_async:
+            raise Unsupported("comprehension")
+        it = ip.eval(g.iter, env, mp)
+        if not isinstance(it, tuple):
+            raise Unsupported("comprehension over something that is not the argument tuple")
+        lst = PyList()
+        for x in it:
+            env2 = _I.Env({g.target.id: x}, env)
+            lst.items.append(ip.eval(e.elt, env2, mp))
+        return lst
+
+    def make_list(self, ip, elems):
+        lst = PyList()
+        lst.items = list(elems)
+        return lst
+
+    def binop(self, ip, op, a, b):
+        if isinstance(op, _ast.Mult) and isinstance(a, PyList) and isinstance(b, int):
+            lst = PyList()
+            lst.items = list(a.items) * b
+            return lst
+        return NotImplemented
+
+    def get_item(self, ip, obj, idx):
+        if isinstance(obj, PyList) and isinstance(idx, int):
+            return obj.items[idx]
+        return NotImplemented
+
+    def set_item(self, ip, obj, idx, v):
+        if isinstance(obj, PyList) and isinstance(idx, int):
+            obj.items[idx] = v
+            return None
+        return NotImplemented
+
+    def model_getattr(self, ip, obj, attr):
+        if isinstance(obj, PyList) and attr == "append":
+            return Builtin("list.append", lambda ip, x: obj.items.append(x))
+        return super().model_getattr(ip, obj, attr)
+
+    def do_yield(self, ip, v):
+        st = ip.st
+        h = H(st)
+        r = st.get("GenOut", "n", OUT)
+        if not (isinstance(v, tuple) and len(v) == self.arity):
+            ip.ctx.fail("zip_longest/yield:every_yielded_tuple_has_one_position_per_input", "post", f"yielded {v!r}")
+            return None
+        terms = []
+        for i, (s_, lo0, hi0) in enumerate(self.sources):
+            terms.append(ip.term(v[i], OBJ) == z3.If(r < hi0 - lo0, z3.Select(self.datas[i], lo0 + r), self.fill_term()))
+        ip.ctx.oblige("zip_longest/yield:position_i_of_round_r_is_element_r_of_input_i_or_the_fill_value", z3.And(*terms) if terms else z3.BoolVal(False), "post")
+        st.put("GenOut", "n", OUT, r + 1)
+        return None
+
+    def loop_spec(self, qualname, ordinal):
+        if ordinal == 0:
+            return LoopSpec(zip_inv, modifies=None, after_havoc=zip_after_havoc, local_types={"num_active": INT, "tuple_yielded": BOOL})
+        return LoopSpec(lambda ip, env: [], modifies=None, exec_for=_unroll_enumerate_loop)
+
+    def on_exit(self, ip, pre, exc, ret):
+        h = H(ip.st)
+        if exc is not None:
+            ip.ctx.oblige("zip_longest/post:never_raises_by_itself", z3.BoolVal(exc.pycls is not None and exc.pycls.__name__ == "CancelledError"), "post")
+            return
+        r = out_n(h)
+        lens = [hi0 - lo0 for _, lo0, hi0 in self.sources]
+        goal = z3.And(r >= 0, *[ln <= r for ln in lens]) if lens else r == 0
+        if lens:
+            goal = z3.And(goal, z3.Or(*[ln == r for ln in lens]))
+        ip.ctx.oblige("zip_longest/post:ends_exactly_after_as_many_rounds_as_the_longest_input_has_elements", goal, "post")
+
+
+UNITS += [ZipLongestUnit]
